@@ -278,6 +278,13 @@ def install(E):
         st.user["guard_on"] = bool(a[0])
         return None
 
+    @reg("vf_watch_shared_state")
+    def vf_watch_shared_state(E, st, fr, ins, a):
+        # from here on, a store to a process-wide mutable object of the library without a lock held is a
+        # lock-discipline violation (the harness' own globals are exempt)
+        st.user["watch_globals"] = bool(a[0])
+        return None
+
     @reg("vf_locks_held")
     def vf_locks_held(E, st, fr, ins, a):
         return len(st.user.get("held") or [])
@@ -812,11 +819,18 @@ def install(E):
     @reg("__cxa_guard_acquire")
     def guard_acq(E, st, fr, ins, a):
         b = E.load(st, a[0], ir.I8)
+        if not b:
+            # one-time initialisation of a function-local static is serialised by the C++ runtime
+            st.user["held"] = list(st.user.get("held") or []) + ["__cxa_guard"]
         return 0 if b else 1
 
     @reg("__cxa_guard_release")
     def guard_rel(E, st, fr, ins, a):
         E.store(st, a[0], ir.I8, 1)
+        held = list(st.user.get("held") or [])
+        if "__cxa_guard" in held:
+            held.remove("__cxa_guard")
+        st.user["held"] = held
         return None
 
     def thrower(tiname):
